@@ -16,8 +16,9 @@ CLAIM = {
             "0 <= Pos <= len+16 and panics / grows without bound outside (refutations with witnesses). ParsingError.Message is total for codes < 2^63 and "
             "refuted above. MAX_RECURSE / _MaxStack / MaxStack / array lengths agree between native/*.h, the Go mirror structs, the generated decoder and the "
             "encoder, and the guarded pushes stay inside their arrays. Stream realloc always leaves room for Read (progress), GuardSlice2 never shrinks. "
-            "The Go traversals of package ast are modelled with an explicit recursion-depth counter: depth used = nesting depth, with no bound "
-            "(preorder_depth_unbounded). Everything about the *running* code (no crash / hang / panic on any input at every public entry point, every "
+            "The Go traversals of package ast are modelled with an explicit recursion-depth counter: the counter never exceeds MAX_RECURSE for any input, "
+            "equals the nesting depth up to the limit, and deeper input is refused with an error value (the unbounded recursion found earlier was repaired, "
+            "fix 62dcdd9; the former refutations are regression cases now). Everything about the *running* code (no crash / hang / panic on any input at every public entry point, every "
             "returned error formats, is bounded and points into the input) is decided by the tie/search half on the real implementation, in child "
             "processes, with exit status / time-out / recover() as observables - it is explored, not proved.",
     "note": "Trusted: Coq kernel, the translator tools/tx (Go -> Gallina for the whitelisted integer functions; rejects anything it does not understand), "
@@ -110,10 +111,12 @@ def classify(f):
     k, e, d = f["kind"], f["entry"], f["detail"]
     if k == "corrupt-error" and f["nest_depth"] >= 1024 and ("nmarshal" in e or "ecode" in e) and "json.UnsupportedValueError" in d:
         return "KF-C07-stackoverflow-error-header"
-    if k == "pos-outside" and f["truncated"] and f["len"] < f["pos"] <= f["len"] + 16 and d.startswith("position "):
-        return "KF-C07-eof-position-beyond-end"
     if k == "pos-outside" and e == "decoder.CheckTrailings" and f["len"] < f["pos"] <= f["len"] + 16 and d.startswith("position "):
-        return "KF-C07-eof-position-beyond-end"   # the cursor left beyond the end by the Decode that hit EOF just before
+        return "KF-C07-eof-position-beyond-end-optdec"   # the cursor left beyond the end by the Decode that hit EOF just before
+    if k == "pos-outside" and f["truncated"] and f["len"] < f["pos"] <= f["len"] + 16 and d.startswith("position "):
+        if f["code"] == 0 and f.get("env", {}).get("SONIC_USE_OPTDEC") and not e.startswith(("sonic.Get", "ast.")):
+            return "KF-C07-eof-position-beyond-end-optdec"
+        return "KF-C07-eof-position-beyond-end"
     if k == "pos-outside" and e.startswith("ast.Parser") and d.startswith("Parser.Pos()") and f["truncated"] and f["pos"] <= f["len"] + 16:
         return "KF-C07-eof-position-beyond-end"
     if k == "msg-unbounded":
@@ -160,7 +163,7 @@ def run(ctx):
         "absence of crashes in the running code (generated x86, native blobs, Go runtime) is explored by fuzzing in child processes, not proved",
         "calcBounds / description theorems assume len(Src) <= max_int - 16 (a Go string cannot be longer)",
         "Config{UseInt64,UseNumber both true} (Decoder.SetOptions documents a panic) and PretouchMany of same-named types (C09) are excluded",
-        "quick tier demonstrates the unbounded ast recursion with the goroutine stack limit lowered to 16 MiB (debug.SetMaxStack); thorough uses the 1 GB default and 1e7 levels",
+        "regression of the repaired unbounded ast recursion: quick tier runs 4e5 levels with the goroutine stack limit lowered to 16 MiB (debug.SetMaxStack), thorough 1e7 levels under the 1 GB default",
     ]
     known = {k["id"]: k for k in c.known_findings("C07")}
     p_ok = c.standard_P(ctx, CLAIM["gens"], SUPPORT)
@@ -365,7 +368,7 @@ def run(ctx):
     for k in sorted(seen_known):
         ctx.known(k, known[k]["signature"][:200] + " :: " + seen_known[k][:200])
     # a listed finding that no longer reproduces means code and record (or model) drifted apart
-    must = ["KF-C07-ast-unbounded-recursion", "KF-C07-eof-position-beyond-end", "KF-C07-eof-error-echoes-source"]
+    must = ["KF-C07-eof-error-echoes-source", "KF-C07-constructed-error-values-panic"]
     gone = [k for k in must if k in known and k not in seen_known]
     if gone and not real and not problems and deep:
         problems.append(("T", "recorded finding(s) no longer reproduce on the implementation although the model still predicts them: " + ", ".join(gone)))
